@@ -48,3 +48,23 @@ Definition orc_of (t : otab) : oracles :=
     (fun k => look_ores t 16 k 0) (fun k => look_ores t 17 k 0) (fun k => look_ores t 18 k 0)
     (fun k => look_opt t 23 k 0).
 
+
+Definition with_reenc {K E} (enc : K -> outcome (bytes * bytes) unit) (o : outcome K E)
+  : outcome (K * (bytes * bytes)) E :=
+  match o with
+  | Ok k => match enc k with Ok e => Ok (k, e) | _ => Panic end
+  | Err e => Err e
+  | Panic => Panic
+  end.
+
+
+(** does a decoder of the table panic? ([usk_from_bytes_total] is relative to that) *)
+Definition tab_has_panic (t : otab) : bool :=
+  existsb (fun e => match e with (_, _, _, OPanic) => true | _ => false end) t.
+
+(** every component the decoders of this table accepted was in canonical form *)
+Definition tab_canonical (t : otab) : bool :=
+  forallb (fun e => match e with
+                    | (f, k, _, OSome b) => if 10 <=? f then bytes_eqb k b else true
+                    | _ => true end) t.
+
